@@ -164,6 +164,7 @@ def run(chk, replay=None):
     cases = ampl_run.build_cases(chk, n_synth=500 if tier == "thorough" else 60, configs=configs, real=real, which={"parity"}, budget_s=900 if tier == "thorough" else 40, spec_fn=spec_fn)
     # the TLC-enumerated universe of Amplitude_MC (every tree, spins <= 1, eta = +-1 at both nodes): parity clause on every pair
     cases = cases + ampl_run.universe_cases(chk, stride=1 if tier == "thorough" else 12, offset=4, which={"parity"})
+    cases = cases + ampl_run.universe_cases(chk, stride=4 if tier == "thorough" else 80, offset=1, which={"parity"}, maxspin2=1, nfs=4, name="universe4")
     tv, drifts, byid = ampl_run.validate(chk, cases)
     ok_cases = [c for c in cases if c[3] is not None]
     chk.count(len(ok_cases))
